@@ -631,6 +631,12 @@ def _opt_map(eng, st, args, ci):
     return _fork_on_option(eng, st, v, on_some, lambda s: [(s, 'ret', NONE)])
 
 
+@intrinsic(r'^((std|core)::option::)?Option::<.*>::flatten$', 'Option::flatten')
+def _opt_flatten(eng, st, args, ci):
+    v = args[0]
+    return _fork_on_option(eng, st, v, lambda s, x: [(s, 'ret', x)], lambda s: [(s, 'ret', NONE)])
+
+
 @intrinsic(r'^((std|core)::option::)?Option::<.*>::or$', 'Option::or (structural ite; falls back to a fork when the payloads do not merge)')
 def _opt_or(eng, st, args, ci):
     a, b = args
